@@ -727,4 +727,41 @@ example : (precomputeW 8 1 0 [(0, 0)]
         (fun buf => buf.map (·.n)) = some [400] := by
   decide +kernel
 
+/-- "The values ... do not depend on how cells are spread over files": the
+arrays are accumulated column by column under the FIRST file's `col_names`, so
+a list of files is only worked on when every file lists the same genes in the
+same order; a file whose ordered gene list differs from the first one's (even
+if it holds the same genes in another column order) is refused before any work
+(`geneMismatch`, the source's "has gene_names ... which does not match"), and
+when the census passes the result is that of `precompute` (hence `direct`). -/
+theorem var_order_checked (geneLists : List (List Nat)) (nClusters g : Nat)
+    (nameToRow : List (Nat × Nat)) (files : List (Nat × List CellRec)) (rows nProc : Nat) :
+    ((∃ g0 rest, geneLists = g0 :: rest ∧ ∃ x ∈ rest, x ≠ g0) →
+      precomputeChecked geneLists nClusters g nameToRow files rows nProc = .error .geneMismatch) ∧
+    ((∀ g0 rest, geneLists = g0 :: rest → ∀ x ∈ rest, x = g0) →
+      precomputeChecked geneLists nClusters g nameToRow files rows nProc
+        = precompute nClusters g nameToRow files rows nProc) := by
+  constructor
+  · rintro ⟨g0, rest, rfl, x, hx, hne⟩
+    have : genesAgree (g0 :: rest) = false := by
+      simp only [genesAgree, List.all_eq_false]
+      exact ⟨x, hx, by simpa using hne⟩
+    simp [precomputeChecked, this]
+  · intro h
+    have : genesAgree geneLists = true := by
+      cases geneLists with
+      | nil => rfl
+      | cons g0 rest =>
+        simp only [genesAgree, List.all_eq_true]
+        intro x hx
+        simpa using h g0 rest rfl x hx
+    simp [precomputeChecked, this]
+
+/- same genes, other column order in the second file: refused; same order: worked on -/
+example : precomputeChecked [[7, 5], [5, 7]] 1 2 [(10, 0)] [(0, [⟨10, [1, 2]⟩]), (1, [⟨10, [2, 1]⟩])] 1 1
+      = .error .geneMismatch ∧
+    precomputeChecked [[7, 5], [7, 5]] 1 2 [(10, 0)] [(0, [⟨10, [1, 2]⟩]), (1, [⟨11, [2, 1]⟩])] 1 1
+      = .ok [⟨1, [⟨1, 1, 1, 0, 1⟩, ⟨2, 4, 1, 1, 1⟩]⟩] := by
+  decide +kernel
+
 end CTM.C09
